@@ -1,16 +1,8 @@
-"""Address-set rules (C16): H1 the range vector is mutated only inside coverage, H3 each word calls the documented set operation."""
+"""Address-set rules (C16): H1 the range vector is mutated only inside coverage, H3 each word is registered with its documented
+overload classes, H7 the set algebra of coverage and of every word by source evaluation on the endpoint-order domain."""
 from zw import walk, walk_nolambda, unwrap, short, Broken, calls
 from r_tables import expand_calls, strval
 
-COV_OPS = {"add", "remove", "add_all", "remove_all", "intersect", "is_covered", "is_overlap", "empty", "find_ranges", "find_holes"}
-# frozen from the docstrings of builtin-aset.cc / doc: class -> set operations it must (and may only) use
-H3_TABLE = {
-    "op_add_aset_cst": {"add"}, "op_add_aset_aset": {"add_all"},
-    "op_sub_aset_cst": {"remove"}, "op_sub_aset_aset": {"remove_all"},
-    "op_overlap_aset_aset": {"intersect", "add_all"},
-    "pred_containsp_aset_cst": {"is_covered"}, "pred_containsp_aset_aset": {"is_covered"},
-    "pred_overlapsp_aset_aset": {"is_overlap"}, "pred_emptyp_aset": {"empty"},
-}
 WORD_CLASSES = {
     "add": {"op_add_aset_cst", "op_add_aset_aset"}, "sub": {"op_sub_aset_cst", "op_sub_aset_aset"},
     "overlap": {"op_overlap_aset_aset"}, "?contains": {"pred_containsp_aset_cst", "pred_containsp_aset_aset"},
@@ -22,21 +14,6 @@ WORD_CLASSES = {
 
 def h3(prog):
     inst, findings = [], []
-    for cls, want in sorted(H3_TABLE.items()):
-        fs = [f for f in prog.funcs.values() if f.get("cls") == cls and f["n"] in ("operate", "result")]
-        if len(fs) != 1:
-            raise Broken("anchor %s::operate/result vanished" % cls)
-        f = fs[0]
-        used = {c["fn"] for c in calls(f["body"]) if c.get("cls") in ("coverage",) or
-                (c.get("fn") in COV_OPS and c.get("obj") is not None and "coverage" in (unwrap(c["obj"]) or {}).get("t", "") )}
-        used |= {c["fn"] for c in calls(f["body"]) if c.get("fn") == "empty" and "cov_range" in c.get("cls", "")}
-        used &= COV_OPS
-        key = "H3:" + cls
-        inst.append((key, {"uses": sorted(used), "documented": sorted(want)}))
-        if used != want:
-            findings.append({"key": key, "where": f["l"],
-                             "msg": "%s implements its word with coverage::{%s}; the documented set operation is {%s}" % (cls, ", ".join(sorted(used)), ", ".join(sorted(want))),
-                             "detail": None})
     # registration: word -> overload classes on address sets
     reg = {}
     for f in prog.funcs.values():
@@ -139,150 +116,345 @@ def h1(prog):
     return inst, findings
 
 
-def h4(prog):
-    """addresses are ordered by comparing them, never by the sign of their (wrapping) difference"""
+# ---------------------------------------------------------------------------
+# H7: the set algebra itself, by evaluating coverage.cc and the address-set words from their source on the
+# endpoint-order domain.  coverage touches addresses only by comparing range endpoints and by forming
+# start+length (an endpoint again) and differences of endpoints (a length again), so its behaviour on a set with k
+# runs and one operand interval depends only on how the endpoints are ordered and which coincide.  Taking a list
+# of breakpoints b0 < b1 < ... < bn, the sets that are unions of the elementary segments [bi, bi+1) and the
+# intervals [bi, bj) realise every such order type for up to ceil(n/2) runs; two lists are used, a contiguous
+# small one (where `elem` can enumerate) and one that spreads over the whole 64-bit range (gaps > 2^63).
+
+def _canon(mask, U):
+    runs = []
+    n = len(U) - 1
+    i = 0
+    while i < n:
+        if mask >> i & 1:
+            j = i
+            while j + 1 < n and mask >> (j + 1) & 1:
+                j += 1
+            runs.append((U[i], U[j + 1] - U[i]))
+            i = j + 1
+        else:
+            i += 1
+    return runs
+
+
+def _segmask(i, j):
+    return ((1 << j) - 1) & ~((1 << i) - 1)
+
+
+def h7(prog, tier="quick"):
+    from cxxobj import CxxEvaluator, Struct, Vec, OutOfBounds
+    from absint import Thrown
     inst, findings = [], []
-    n_cmp = 0
-    for f in prog.funcs.values():
-        rel = prog.rel(f["file"])
-        if not rel.startswith(("libzwerg/coverage", "libzwerg/builtin-aset", "libzwerg/value-aset")):
-            continue
-        body = f.get("body")
-        if body is None:
-            continue
-        # direct comparisons of unsigned addresses (instances)
-        for x in walk(body):
-            if x.get("k") == "bin" and x.get("op") in ("<", ">", "<=", ">="):
-                n_cmp += 1
-        # signed variables initialised from a difference of unsigned 64-bit values and then sign-tested
-        signed_diff = {}
-        for x in walk(body):
-            if x.get("k") == "decl":
-                for v in x["vars"]:
-                    t = v.get("t", "")
-                    if t in ("long", "const long", "long long", "int", "const int") and v.get("init") is not None:
-                        for y in walk(v["init"]):
-                            if y.get("k") == "bin" and y.get("op") == "-":
-                                signed_diff[v["id"]] = (v, y)
-        for x in walk(body):
-            if x.get("k") == "bin" and x.get("op") in ("<", ">", "<=", ">="):
-                l, r = unwrap(x["lhs"]), unwrap(x["rhs"])
-                for a, b in ((l, r), (r, l)):
-                    if isinstance(a, dict) and a.get("k") == "ref" and a.get("id") in signed_diff and isinstance(b, dict) and b.get("k") == "int" and b["v"] == 0:
-                        v, y = signed_diff[a["id"]]
-                        findings.append({"key": "H4:%s:%s" % (f["q"], v["n"]), "where": x.get("l") or f["l"],
-                                         "msg": "%s orders two addresses by the sign of their difference (`%s = %s`): for addresses 2^63 or more apart the sign is wrong, so ranges are searched/merged on the wrong side" % (f["q"], v["n"], short(y)[:50]),
-                                         "detail": None})
-                # (int64_t)(a - b) < 0 written inline
-                for a, b in ((x["lhs"], r), (x["rhs"], l)):
-                    if isinstance(a, dict) and a.get("k") == "cast" and a.get("t") in ("int64_t", "long", "long long", "ssize_t", "ptrdiff_t", "int") and \
-                       any(y.get("k") == "bin" and y.get("op") == "-" for y in walk(a)) and isinstance(b, dict) and b.get("k") == "int" and b["v"] == 0:
-                        findings.append({"key": "H4:%s:cast" % f["q"], "where": x.get("l") or f["l"],
-                                         "msg": "%s orders two addresses by the sign of a casted difference `%s`" % (f["q"], short(a)[:50]), "detail": None})
-    inst.append(("H4:address-comparisons", {"relational_comparisons_in_address_set_code": n_cmp}))
-    if n_cmp < 20:
-        raise Broken("fewer address comparisons than confirmed by hand (20): %d" % n_cmp)
-    return inst, findings
+    need = ["coverage::add", "coverage::remove", "coverage::is_covered", "coverage::is_overlap", "coverage::intersect",
+            "coverage::add_all", "coverage::remove_all"]
+    fn = {}
+    for q in need:
+        f = prog.func_opt(q)
+        if f is None or f.get("body") is None:
+            raise Broken("anchor %s vanished" % q)
+        fn[q.split("::")[1]] = f
 
+    def mkcov(runs):
+        return Vec([Struct("cov_range", {"start": s, "length": l}) for s, l in runs], "coverage")
 
-def h5(prog):
-    """every piece coverage::intersect adds to its result is clipped by BOTH the stored range and the queried range:
-    its length expression depends on the query's extent (derived from the `length` parameter) and on a stored range"""
-    inst, findings = [], []
-    f = prog.func_opt("coverage::intersect")
-    if f is None:
-        raise Broken("anchor coverage::intersect vanished")
-    ps = {p["n"]: p["id"] for p in f["params"]}
-    if "length" not in ps or "start" not in ps:
-        raise Broken("coverage::intersect no longer takes (start, length)")
-    tainted = {ps["length"]}
-    decls = [v for x in walk(f["body"]) if x.get("k") == "decl" for v in x["vars"]]
-    changed = True
-    while changed:
-        changed = False
-        for v in decls:
-            if v["id"] not in tainted and v.get("init") is not None and any(y.get("k") == "ref" and y.get("id") in tainted for y in walk(v["init"])):
-                tainted.add(v["id"])
-                changed = True
-    adds = [c for c in calls(f["body"]) if c.get("fn") == "add" and c.get("cls") == "coverage" and len(c["a"]) == 2]
-    if len(adds) < 2:
-        raise Broken("coverage::intersect no longer builds its result with coverage::add (unmodelled shape)")
-    for c in adds:
-        L = c["a"][1]
-        dep_query = any(y.get("k") == "ref" and y.get("id") in tainted for y in walk(L))
-        dep_range = any(y.get("k") == "mem" and y["n"] in ("start", "length") for y in walk(L)) or \
-            any(y.get("k") == "ref" and y.get("d") == "local" and y.get("id") not in tainted and y.get("id") not in ps.values() for y in walk(L))
-        key = "H5:coverage::intersect@%s" % c["l"]
-        inst.append((key, {"length": short(L)[:70], "clipped_by_query": dep_query, "clipped_by_range": dep_range}))
-        if not dep_query:
-            findings.append({"key": "H5:coverage::intersect:%s" % ("prev" if "j" in short(L) else c["l"]), "where": "libzwerg/" + c["l"],
-                             "msg": "coverage::intersect adds `%s` addresses without clipping to the end of the queried range: the piece taken from a stored range that begins before the query extends past the query (`1 10 aset 2 3 aset overlap` yields [2, 10) instead of [2, 3))" % short(L)[:60],
-                             "detail": None})
-    return inst, findings
+    class Cst:
+        def __init__(self, v, dom, pos=None):
+            self.v, self.dom, self.pos = v, dom, pos
 
+    class VCst:
+        def __init__(self, c, pos):
+            self.c, self.pos = c, pos
 
-def h6(prog):
-    """coverage::remove may stop after trimming the range that contains `start` only when the removed interval ENDS inside that
-    range (the hole case); otherwise the following ranges must still be examined"""
-    from cfg import CFG
-    inst, findings = [], []
-    f = prog.func_opt("coverage::remove")
-    if f is None:
-        raise Broken("anchor coverage::remove vanished")
-    ps = {p["n"]: p["id"] for p in f["params"]}
-    if "length" not in ps:
-        raise Broken("coverage::remove no longer takes (start, length)")
-    tainted = {ps["length"]}
-    decls = [v for x in walk(f["body"]) if x.get("k") == "decl" for v in x["vars"]]
-    changed = True
-    while changed:
-        changed = False
-        for v in decls:
-            if v["id"] not in tainted and v.get("init") is not None and any(y.get("k") == "ref" and y.get("id") in tainted for y in walk(v["init"])) \
-               and v.get("t") in ("unsigned long", "const unsigned long"):
-                tainted.add(v["id"])
-                changed = True
-    g = CFG(f)
-    loops = [x for x in walk(f["body"]) if x.get("k") in ("while", "for")]
-    if not loops:
-        raise Broken("coverage::remove no longer walks the following ranges with a loop (unmodelled shape)")
-    loop_ids = {id(y) for lp in loops for y in walk(lp)}
-    loop_nodes = {n.id for n in g.nodes if isinstance(n.ast, dict) and (id(n.ast) in loop_ids or any(id(y) in loop_ids for y in walk_nolambda(n.ast)))}
+    class VAset:
+        def __init__(self, cov, pos):
+            self.cov, self.pos = cov, pos
 
-    def ends_inside_edge(n, lab):
-        """True edge of `a_end < r_end` / `r_end > a_end`: the removed interval ends inside the stored range"""
-        if n.kind != "cond" or not isinstance(n.ast, dict):
-            return False
-        c = unwrap(n.ast)
-        if c.get("k") != "bin" or c.get("op") not in ("<", ">", "<=", ">="):
-            return False
-        l, r = unwrap(c["lhs"]), unwrap(c["rhs"])
-        lt = isinstance(l, dict) and l.get("k") == "ref" and l.get("id") in tainted
-        rt = isinstance(r, dict) and r.get("k") == "ref" and r.get("id") in tainted
-        if lt == rt:
-            return False
-        if (lt and c["op"] in ("<",)) or (rt and c["op"] in (">",)):
-            return lab is True
-        if (lt and c["op"] in (">=",)) or (rt and c["op"] in ("<=",)):
-            return lab is False
-        return False
+    class Obj:
+        pass
 
-    def guard_edge(n, lab):
-        """the initial guard: empty set or zero length"""
-        if n.kind != "cond" or not isinstance(n.ast, dict):
-            return False
-        c = unwrap(n.ast)
-        if c.get("k") == "call" and c.get("fn") == "empty" and lab is True:
-            return True
-        if c.get("k") == "bin" and c.get("op") == "==" and any(isinstance(unwrap(z), dict) and unwrap(z).get("id") == ps["length"] for z in (c["lhs"], c["rhs"])) and lab is True:
-            return True
-        return False
-    reach = g.reachable(avoid=lambda n: n.id in loop_nodes,
-                        edge_ok=lambda n, t, lab: not ends_inside_edge(n, lab) and not guard_edge(n, lab))
-    bad = [n for n in g.nodes if n.id in reach and n.kind == "ret" and n.id not in loop_nodes]
-    inst.append(("H6:coverage::remove", {"early_returns_outside_hole_case": [n.loc for n in bad]}))
-    if bad:
-        findings.append({"key": "H6:coverage::remove", "where": "libzwerg/" + (bad[0].loc or f["l"]),
-                         "msg": "coverage::remove returns at %s before looking at the following ranges although the removed interval need not end inside the first range: `sub` then leaves members of the subtrahend in later runs" % bad[0].loc,
-                         "detail": None})
+    def make_unique(ev, o, a, e=None):
+        raise Broken("make_unique of an unmodelled class")
+    def pr(r):
+        """normalise a pred_result: enumerator, or the bool it was converted from"""
+        if isinstance(r, bool):
+            return "yes" if r else "no"
+        return r[1] if isinstance(r, tuple) else r
+
+    def construct_producer(cls):
+        def h(ev, o, a):
+            ctors = [f for f in prog.funcs.values() if f.get("cls") == cls and f["n"] == cls.split("::")[-1] and len(f["params"]) == len(a) and f.get("body") is not None]
+            if len(ctors) != 1:
+                raise Broken("cannot resolve the constructor of %s" % cls)
+            return ev.construct(ctors[0], Obj(), a)
+        return h
+    hooks = {
+        "ctor:coverage": lambda ev, o, a: mkcov([]) if not a else a[0].copy_value(),
+        "ctor:value_aset": lambda ev, o, a: VAset(a[0].copy_value(), a[1]),
+        "ctor:value_cst": lambda ev, o, a: VCst(a[0], a[1]),
+        "ctor:constant": lambda ev, o, a: Cst(a[0], a[1]),
+        "ctor:pred_result": lambda ev, o, a: ("enum", "yes" if a[0] else "no", None) if isinstance(a[0], bool) else a[0],
+        "std::make_unique<value_cst*": lambda ev, o, a: VCst(a[0], a[1]),
+        "std::make_unique<value_aset*": lambda ev, o, a: VAset(a[0].copy_value(), a[1]),
+        "std::make_unique<(anonymous namespace)::elem_aset_producer*": construct_producer("(anonymous namespace)::elem_aset_producer"),
+        "std::make_unique<(anonymous namespace)::aset_range_producer*": construct_producer("(anonymous namespace)::aset_range_producer"),
+        "value_aset::get_coverage": lambda ev, o, a: o.cov,
+        "value_cst::get_constant": lambda ev, o, a: o.c,
+        "dw_address_dom": lambda ev, o, a: "address",
+        "(anonymous namespace)::addressify": lambda ev, o, a: a[0].v,
+        "mpz_class::uval": lambda ev, o, a: o,
+        "operator>": lambda ev, o, a: a[0] > a[1],
+        "operator<": lambda ev, o, a: a[0] < a[1],
+        "operator-": lambda ev, o, a: a[0] - a[1],
+    }
+    ev = CxxEvaluator(hooks, {"dec_constant_dom": "dec"}, prog=prog, structs={"cov_range": ["start", "length"]},
+                      defaults={"coverage": lambda: mkcov([])})
+
+    def denote(cov, U, what):
+        """mask of a result; None + reason when it is not a canonical set over U"""
+        idx = {b: i for i, b in enumerate(U)}
+        mask = 0
+        prev_end = None
+        for r in cov.items:
+            s, l = r.start, r.length
+            if l is None or s is None or l == 0:
+                return None, "%s contains an empty run [%#x, +%s)" % (what, s or 0, l)
+            e = s + l
+            if s not in idx or e not in idx:
+                return None, "%s contains the run [%#x, %#x) whose ends are not ends of any operand" % (what, s, e)
+            if prev_end is not None and s <= prev_end:
+                return None, "%s is not in canonical form: run [%#x, %#x) follows a run ending at %#x (runs must be ascending, disjoint and non-adjacent, otherwise equal sets compare unequal and `range` splits a maximal run)" % (what, s, e, prev_end)
+            prev_end = e
+            mask |= _segmask(idx[s], idx[e])
+        return mask, None
+
+    def show(runs):
+        return "{" + ", ".join("[%#x, %#x)" % (s, s + l) for s, l in runs) + "}"
+    lists = [list(range(0, 6 if tier == "quick" else 7)),
+             [1, 5, 6, (1 << 63) + 6, (1 << 63) + 10, (1 << 64) - 9, (1 << 64) - 1] if tier != "quick" else [1, 5, 6, (1 << 63) + 6, (1 << 63) + 10, (1 << 64) - 1]]
+    n_eval = 0
+    seen_keys = set()
+
+    def report(key, where, msg):
+        if key in seen_keys:
+            return
+        seen_keys.add(key)
+        findings.append({"key": key, "where": where, "msg": msg, "detail": None})
+
+    def run(f, this, args, key, what):
+        nonlocal n_eval
+        n_eval += 1
+        try:
+            return True, ev.call(f, this, args)
+        except OutOfBounds as x:
+            report(key, "libzwerg/" + f["l"], "%s: %s (memory error)" % (what, x))
+        except Thrown as x:
+            report(key, "libzwerg/" + f["l"], "%s throws (%s)" % (what, x))
+        return False, None
+    for U in lists:
+        n = len(U) - 1
+        for mask in range(1 << n):
+            runs = _canon(mask, U)
+            for i in range(n + 1):
+                for j in range(i, n + 1):
+                    s, l = U[i], U[j] - U[i]
+                    seg = _segmask(i, j)
+                    ctx = "%s with [%#x, %#x)" % (show(runs), s, s + l)
+                    c = mkcov(runs)
+                    ok, _ = run(fn["add"], c, [s, l], "H7:coverage::add", "coverage::add on " + ctx)
+                    if ok:
+                        m, why = denote(c, U, "the result of coverage::add on " + ctx)
+                        if m is None:
+                            report("H7:coverage::add", "libzwerg/" + fn["add"]["l"], why)
+                        elif m != mask | seg:
+                            report("H7:coverage::add", "libzwerg/" + fn["add"]["l"], "coverage::add on %s gives %s, the union is %s" % (ctx, show(_canon(m, U)), show(_canon(mask | seg, U))))
+                    c = mkcov(runs)
+                    ok, _ = run(fn["remove"], c, [s, l], "H7:coverage::remove", "coverage::remove on " + ctx)
+                    if ok:
+                        m, why = denote(c, U, "the result of coverage::remove on " + ctx)
+                        if m is None:
+                            report("H7:coverage::remove", "libzwerg/" + fn["remove"]["l"], why)
+                        elif m != mask & ~seg:
+                            report("H7:coverage::remove", "libzwerg/" + fn["remove"]["l"], "coverage::remove on %s gives %s, the difference is %s" % (ctx, show(_canon(m, U)), show(_canon(mask & ~seg, U))))
+                    if j == i:
+                        continue
+                    c = mkcov(runs)
+                    ok, r = run(fn["is_covered"], c, [s, l], "H7:coverage::is_covered", "coverage::is_covered on " + ctx)
+                    if ok and bool(r) != (mask & seg == seg):
+                        report("H7:coverage::is_covered", "libzwerg/" + fn["is_covered"]["l"], "coverage::is_covered on %s answers %s" % (ctx, r))
+                    ok, r = run(fn["is_overlap"], c, [s, l], "H7:coverage::is_overlap", "coverage::is_overlap on " + ctx)
+                    if ok and bool(r) != (mask & seg != 0):
+                        report("H7:coverage::is_overlap", "libzwerg/" + fn["is_overlap"]["l"], "coverage::is_overlap on %s answers %s" % (ctx, r))
+                    ok, r = run(fn["intersect"], c, [s, l], "H7:coverage::intersect", "coverage::intersect on " + ctx)
+                    if ok:
+                        m, why = denote(r, U, "the result of coverage::intersect on " + ctx)
+                        if m is None:
+                            report("H7:coverage::intersect", "libzwerg/" + fn["intersect"]["l"], why)
+                        elif m != mask & seg:
+                            report("H7:coverage::intersect", "libzwerg/" + fn["intersect"]["l"], "coverage::intersect on %s gives %s, the intersection is %s" % (ctx, show(_canon(m, U)), show(_canon(mask & seg, U))))
+                        d0, _ = denote(c, U, "")
+                        if d0 != mask:
+                            report("H7:coverage::intersect", "libzwerg/" + fn["intersect"]["l"], "coverage::intersect modifies the set it is applied to")
+    for k in ("add", "remove", "is_covered", "is_overlap", "intersect"):
+        inst.append(("H7:coverage::" + k, {"evaluations": n_eval // 5}))
+
+    # ---- the words, on pairs of sets over the first (contiguous) list
+    def word(cls, meth="operate"):
+        fs = [f for f in prog.funcs.values() if f.get("cls") == cls and f["n"] == meth and f.get("body") is not None]
+        if len(fs) != 1:
+            raise Broken("anchor %s::%s vanished" % (cls, meth))
+        return fs[0]
+    U = lists[0]
+    n = len(U) - 1
+    idx = {b: i for i, b in enumerate(U)}
+    allm = list(range(1 << n))
+    binops = [("op_add_aset_aset", "add", lambda a, b: a | b), ("op_sub_aset_aset", "sub", lambda a, b: a & ~b),
+              ("op_overlap_aset_aset", "overlap", lambda a, b: a & b)]
+    binpreds = [("pred_containsp_aset_aset", "?contains", lambda a, b: b & ~a == 0), ("pred_overlapsp_aset_aset", "?overlaps", lambda a, b: a & b != 0)]
+    n_w = 0
+    for cls, w, model in binops:
+        f = word(cls)
+        key = "H7:word:" + w
+        for a in allm:
+            for b in allm:
+                va, vb = VAset(mkcov(_canon(a, U)), 0), VAset(mkcov(_canon(b, U)), 0)
+                ok, r = run(f, Obj(), [va, vb], key, "`%s` on %s and %s" % (w, show(_canon(a, U)), show(_canon(b, U))))
+                n_w += 1
+                if not ok:
+                    continue
+                m, why = denote(r.cov, U, "the result of `%s` on %s and %s" % (w, show(_canon(a, U)), show(_canon(b, U))))
+                if m is None:
+                    report(key, "libzwerg/" + f["l"], why)
+                elif m != model(a, b):
+                    report(key, "libzwerg/" + f["l"], "`%s` on %s and %s yields %s, expected %s" % (w, show(_canon(a, U)), show(_canon(b, U)), show(_canon(m, U)), show(_canon(model(a, b), U))))
+                elif r.pos != 0:
+                    report(key, "libzwerg/" + f["l"], "`%s` numbers its single result %s instead of 0" % (w, r.pos))
+        inst.append((key, {"class": cls, "pairs": len(allm) ** 2}))
+    for cls, w, model in binpreds:
+        f = word(cls, "result")
+        key = "H7:word:" + w
+        for a in allm:
+            for b in allm:
+                va, vb = VAset(mkcov(_canon(a, U)), 0), VAset(mkcov(_canon(b, U)), 0)
+                ok, r = run(f, Obj(), [va, vb], key, "`%s` on %s and %s" % (w, show(_canon(a, U)), show(_canon(b, U))))
+                n_w += 1
+                if ok:
+                    got = pr(r)
+                    if got != ("yes" if model(a, b) else "no"):
+                        report(key, "libzwerg/" + f["l"], "`%s` on %s and %s answers %s" % (w, show(_canon(a, U)), show(_canon(b, U)), got))
+        inst.append((key, {"class": cls, "pairs": len(allm) ** 2}))
+    # unary words and words with a constant operand
+    f_len, f_low, f_high = word("op_length_aset"), word("op_low_aset"), word("op_high_aset")
+    f_empty = word("pred_emptyp_aset", "result")
+    f_elem, f_relem, f_range = word("op_elem_aset"), word("op_relem_aset"), word("op_range_aset")
+    f_addc, f_subc, f_contc = word("op_add_aset_cst"), word("op_sub_aset_cst"), word("pred_containsp_aset_cst", "result")
+    f_mk = word("op_aset_cst_cst")
+    nexts = {}
+    for pc in ("(anonymous namespace)::elem_aset_producer", "(anonymous namespace)::aset_range_producer"):
+        fs = [f for f in prog.funcs.values() if f.get("cls") == pc and f["n"] == "next" and f.get("body") is not None]
+        if len(fs) != 1:
+            raise Broken("anchor %s::next vanished" % pc)
+        nexts[pc] = fs[0]
+
+    def drain(prod, nx, key, what):
+        out = []
+        for _ in range(200):
+            ok, v = run(nx, prod, [], key, what)
+            if not ok:
+                return None
+            if v is None:
+                return out
+            out.append(v)
+        report(key, "libzwerg/" + nx["l"], "%s does not terminate" % what)
+        return None
+    for a in allm:
+        runs = _canon(a, U)
+        members = [U[i] for i in range(n) if a >> i & 1]      # contiguous list: one address per segment
+        sa = show(runs)
+        mk = lambda: VAset(mkcov(runs), 0)
+        ok, r = run(f_len, Obj(), [mk()], "H7:word:length", "`length` on " + sa)
+        if ok and (r.c.v != len(members) or r.pos != 0 or r.c.dom != "dec"):
+            report("H7:word:length", "libzwerg/" + f_len["l"], "`length` on %s yields %s (domain %s, pos %s); the set has %d addresses" % (sa, r.c.v, r.c.dom, r.pos, len(members)))
+        ok, r = run(f_low, Obj(), [mk()], "H7:word:low", "`low` on " + sa)
+        if ok and ((r is None) != (not members) or (r is not None and (r.c.v != members[0] or r.pos != 0))):
+            report("H7:word:low", "libzwerg/" + f_low["l"], "`low` on %s yields %s" % (sa, None if r is None else hex(r.c.v)))
+        ok, r = run(f_high, Obj(), [mk()], "H7:word:high", "`high` on " + sa)
+        if ok and ((r is None) != (not members) or (r is not None and (r.c.v != members[-1] + 1 or r.pos != 0))):
+            report("H7:word:high", "libzwerg/" + f_high["l"], "`high` on %s yields %s" % (sa, None if r is None else hex(r.c.v)))
+        ok, r = run(f_empty, Obj(), [mk()], "H7:word:?empty", "`?empty` on " + sa)
+        if ok and pr(r) != ("yes" if not members else "no"):
+            report("H7:word:?empty", "libzwerg/" + f_empty["l"], "`?empty` on %s answers %s" % (sa, r))
+        for f_e, w, want in ((f_elem, "elem", members), (f_relem, "relem", members[::-1])):
+            ok, p = run(f_e, Obj(), [mk()], "H7:word:" + w, "`%s` on %s" % (w, sa))
+            if not ok:
+                continue
+            vals = drain(p, nexts["(anonymous namespace)::elem_aset_producer"], "H7:word:" + w, "`%s` on %s" % (w, sa))
+            if vals is None:
+                continue
+            got = [v.c.v for v in vals]
+            if got != want or [v.pos for v in vals] != list(range(len(vals))):
+                report("H7:word:" + w, "libzwerg/" + nexts["(anonymous namespace)::elem_aset_producer"]["l"],
+                       "`%s` on %s yields %s numbered %s; expected %s numbered from 0" % (w, sa, [hex(x) for x in got], [v.pos for v in vals], [hex(x) for x in want]))
+        ok, p = run(f_range, Obj(), [mk()], "H7:word:range", "`range` on " + sa)
+        if ok:
+            vals = drain(p, nexts["(anonymous namespace)::aset_range_producer"], "H7:word:range", "`range` on " + sa)
+            if vals is not None:
+                got = [[(r.start, r.length) for r in v.cov.items] for v in vals]
+                if got != [[r] for r in runs] or [v.pos for v in vals] != list(range(len(vals))):
+                    report("H7:word:range", "libzwerg/" + nexts["(anonymous namespace)::aset_range_producer"]["l"],
+                           "`range` on %s yields %s; expected its maximal runs in ascending order, numbered from 0" % (sa, got))
+        for x in U[:-1]:
+            bit = 1 << idx[x]
+            cst = lambda: VCst(Cst(x, "address"), 0)
+            ok, r = run(f_addc, Obj(), [mk(), cst()], "H7:word:add-cst", "`add` of %#x to %s" % (x, sa))
+            if ok:
+                m, why = denote(r.cov, U, "the result of `add` of %#x to %s" % (x, sa))
+                if m is None or m != a | bit:
+                    report("H7:word:add-cst", "libzwerg/" + f_addc["l"], why or "`add` of %#x to %s yields %s" % (x, sa, show(_canon(m, U))))
+            ok, r = run(f_subc, Obj(), [mk(), cst()], "H7:word:sub-cst", "`sub` of %#x from %s" % (x, sa))
+            if ok:
+                m, why = denote(r.cov, U, "the result of `sub` of %#x from %s" % (x, sa))
+                if m is None or m != a & ~bit:
+                    report("H7:word:sub-cst", "libzwerg/" + f_subc["l"], why or "`sub` of %#x from %s yields %s" % (x, sa, show(_canon(m, U))))
+            ok, r = run(f_contc, Obj(), [mk(), cst()], "H7:word:?contains-cst", "`?contains` %#x on %s" % (x, sa))
+            if ok and pr(r) != ("yes" if a & bit else "no"):
+                report("H7:word:?contains-cst", "libzwerg/" + f_contc["l"], "`?contains` %#x on %s answers %s" % (x, sa, r))
+    for x in U:
+        for y in U:
+            ok, r = run(f_mk, Obj(), [VCst(Cst(x, "address"), 0), VCst(Cst(y, "address"), 0)], "H7:word:aset", "`aset` of %#x and %#x" % (x, y))
+            if ok:
+                lo, hi = min(x, y), max(x, y)
+                m, why = denote(r.cov, U, "`%#x %#x aset`" % (x, y))
+                if m is None or m != _segmask(idx[lo], idx[hi]) or r.pos != 0:
+                    report("H7:word:aset", "libzwerg/" + f_mk["l"], why or "`%#x %#x aset` yields %s instead of [%#x, %#x)" % (x, y, show(_canon(m, U)), lo, hi))
+    for w in ("length", "low", "high", "?empty", "elem", "relem", "range", "add-cst", "sub-cst", "?contains-cst", "aset"):
+        inst.append(("H7:word:" + w, {"sets": len(allm)}))
+    # equality: value_aset::cmp answers equal exactly for equal canonical forms
+    fc = prog.func_opt("value_aset::cmp")
+    if fc is None:
+        raise Broken("anchor value_aset::cmp vanished")
+    cmp_fns = {f["n"]: f for f in prog.funcs.values() if f["q"].startswith("compare<") or f["q"] == "compare"}
+    hooks["zw_value::as<value_aset>"] = lambda ev, o, a: a[0] if isinstance(a[0], VAset) else None
+    ev.hooks.update(hooks)
+
+    class VA2(VAset):
+        pass
+    rel = {}
+    for a in allm:
+        for b in allm:
+            va, vb = VAset(mkcov(_canon(a, U)), 0), VAset(mkcov(_canon(b, U)), 0)
+            ok, r = run(fc, va, [vb], "H7:value_aset::cmp", "value_aset::cmp on %s and %s" % (show(_canon(a, U)), show(_canon(b, U))))
+            if not ok:
+                break
+            rel[(a, b)] = r[1] if isinstance(r, tuple) else r
+            if (rel[(a, b)] == "equal") != (a == b):
+                report("H7:value_aset::cmp", "libzwerg/" + fc["l"], "value_aset::cmp answers `%s` for %s and %s: two address sets must compare equal exactly when they denote the same set" % (rel[(a, b)], show(_canon(a, U)), show(_canon(b, U))))
+    for (a, b), r in rel.items():
+        back = rel.get((b, a))
+        if back is not None and {"less": "greater", "greater": "less", "equal": "equal"}.get(r) != back:
+            report("H7:value_aset::cmp", "libzwerg/" + fc["l"], "value_aset::cmp is not antisymmetric on %s and %s (%s / %s)" % (show(_canon(a, U)), show(_canon(b, U)), r, back))
+    inst.append(("H7:value_aset::cmp", {"pairs": len(rel)}))
     return inst, findings
